@@ -36,7 +36,8 @@ EXPLANATION = (
     '_register_adhoc_import); the import placeholder is emitted once and filled once, after all '
     'declarations. Decides structure, not the correctness of individual annotations.'
     ' R4 (generator totality, stonelint.totality): python_type_stubs completes -- IR attribute reads defined for every reaching class; raises/asserts unreachable dispatch defaults or configuration conditions.'
-    ' RD (decision drift, stonelint.conddrift): the tests of the functions this property is anchored in (stonelint.ownership) are compared with reference/conditions.json; a relation, polarity or connective changed over the same operands, or an operand purely added or dropped, is a violation; re-spellings and new or removed tests are not claimed.')
+    ' RD (decision drift, stonelint.conddrift): the tests of the functions this property is anchored in (stonelint.ownership) are compared with reference/conditions.json; a relation, polarity or connective changed over the same operands, or an operand purely added or dropped, is a violation; re-spellings and new or removed tests are not claimed.'
+    " RE (expression drift, stonelint.exprdrift): the same functions' attribute names, variable reads, simple statements, calls and arithmetic/slice literals are compared with reference/expressions.json; a substituted attribute or variable, a dropped call or assignment, swapped arguments or a changed literal is a violation; any other edit is not claimed.")
 ASSUMPTIONS = ['typing names are recognised among: List Dict Optional Text Type Callable TypeVar '
                'Union Any Tuple Set']
 TYPING = ('List', 'Dict', 'Optional', 'Text', 'Type', 'Callable', 'TypeVar', 'Any', 'Tuple', 'Set')
@@ -355,3 +356,5 @@ def run(pm, ctx):
     from ..conddrift import run_decisions
     from ..ownership import OWN
     run_decisions(pm, ctx, 'C15-RD', OWN['C15'])
+    from .. import exprdrift
+    exprdrift.run(pm, ctx, 'C15-RE', OWN['C15'])
